@@ -361,6 +361,13 @@ PROPS = {
              "bound": "buffers of at most 6 octets, every position 0..=8",
              "what": "the contract that unit zfsource assumes for Symbol::from_slice_index (end position > pos and <= len; None "
                      "exactly at the end), checked on the compiled function"},
+            {"group": "repo_zonefile", "name": "c07_next_item_total_bounded", "kind": "bounded", "tier": "quick", "timeout": 900,
+             "bound": "buffer tails of at most 4 octets (every octet value), parenthesis depth 0..=2, loop bound 6 iterations",
+             "what": "SourceBuf::next_item on the compiled code (in-crate harness): returns without panic or out-of-bounds read, "
+                     "stays inside the buffer, and the item category matches the octet it stopped at -- independent of how the "
+                     "loop is written (the Verus unit proves it for every length but is tied to the loop structure of the text)",
+             "search": {"bin": "c07_search_small_files", "crate": "replay_net",
+                        "what": "all 30941 files of at most 4 octets over the 13 special octets, read through the public API with a 10 s progress watchdog"}},
         ],
         "replays": [
             {"bin": "d16_zonefile_txt_at_eof", "crate": "replay_net", "finding": "D16"},
